@@ -168,14 +168,14 @@ PROPS = {
         "assumptions": COMMON_ASSUMPTIONS,
     },
     "C12": {
-        "mc": ["hid_hide"], "gen": ["hide", "hide_reveal", "reveal", "text_classes"],
+        "mc": ["hid_hide"], "gen": ["hide", "hide_reveal", "reveal", "text_classes", "reveal_plain"],
         "rule": "hidden values compared with RFC 2661 s4.3 computed by TLC with MD5 written in TLA+ (RFC 1321 vectors "
                 "assumed at load); block counts 1..8 (thorough: ..63); reveal of arbitrary hidden values likewise; "
                 "TLC: declarative definition = in-place loops, HiddenLength",
         "assumptions": COMMON_ASSUMPTIONS + ["MD5 in TLC costs ~30 ms per block, so cases are chosen rather than many"],
     },
     "C13": {
-        "mc": ["hid_reveal"], "gen": ["reveal", "text_classes"],
+        "mc": ["hid_reveal"], "gen": ["reveal", "text_classes", "reveal_plain"],
         "rule": "the reveal machine explored by TLC with the decrypted length field at every boundary against every value "
                 "size (each behaviour replayed with a crafted ciphertext), random values under wrong keys, empty and "
                 "misaligned values, every attribute-type class",
